@@ -48,7 +48,7 @@ META = {
                     'does not have, so only "never blocks" (I1) and "heals" (I5) are asserted after them',
                     'after a crash a file holds the old content, the new content or an unloadable prefix (the '
                     'SimFS flushes what was written before the kill)'],
-    'probe_names': ['pauxdirs_from_config_file', 'pauxdirs_main_run', 'pauxdirs_same_job_name', 'pauxdirs_damaged_part', 'document_without_labels', 'common_label_saved', 'crash_between_truncate_and_write', 'crash_mid_write', 'crash_in_readback', 'crash_in_render',
+    'probe_names': ['target_location_checked', 'pauxdirs_from_config_file', 'pauxdirs_main_run', 'pauxdirs_same_job_name', 'pauxdirs_damaged_part', 'document_without_labels', 'common_label_saved', 'crash_between_truncate_and_write', 'crash_mid_write', 'crash_in_readback', 'crash_in_render',
                     'crash_before_paux', 'crash_after_save', 'loads_to_nondict', 'dict_without_renderer', 'edited_owner',
                     'healed_after_fault', 'cross_ref_resolved', 'other_block_preserved', 'xr_reader_used',
                     'corrupt_file_read', 'partial_restore_after_bad_entry', 'save_failed_run_continued', 'ioerr_open_r', 'ioerr_write', 'ioerr_open_w'],
@@ -114,6 +114,8 @@ def doc_labels(i, st):
 def doc_source(i, st, m, use_xr, fancy_names=False):
     """st = {'items': [[kind, k, version], ...]}; labels d<i>L<k>.  use_xr: False | 'plain' | 'prefix' | 'url' | 'both'."""
     lines = ['\\documentclass{article}']
+    if any(it[0] == 'longtable' for it in st['items']):
+        lines.append('\\usepackage{longtable}')
     if use_xr:
         lines.append('\\usepackage{xr}')
         for j in range(m):
@@ -139,6 +141,8 @@ def doc_source(i, st, m, use_xr, fancy_names=False):
             lines.append('Body b%dx%d v%d.' % (i, k, ver))
         elif kind == 'figure':
             lines.append('\\begin{figure}Fig f%dx%d\\caption{C%dx%dv%d}\\label{%s}\\end{figure}' % (i, k, i, k, ver, lab))
+        elif kind == 'longtable':
+            lines.append('\\begin{longtable}{ll}\\caption{LT%dx%dv%d}\\label{%s}\\\\ a%dx%d & b \\\\ c & d \\\\ \\end{longtable}' % (i, k, ver, lab, i, k))
         elif kind == 'item':
             lines.append('\\begin{enumerate}\\item\\label{%s} I%dx%dv%d\\end{enumerate}' % (lab, i, k, ver))
         else:
@@ -157,7 +161,7 @@ def doc_source(i, st, m, use_xr, fancy_names=False):
 
 def expected_numbers(st):
     out = {}
-    n = {'section': 0, 'equation': 0, 'figure': 0}
+    n = {'section': 0, 'equation': 0, 'figure': 0, 'longtable': 0}
     for kind, k, ver in st['items']:
         if kind == 'item':
             out[k] = ('1', ver, kind)           # every generated item is the first of its own list
@@ -185,7 +189,7 @@ def generate(seed, tier):
     for i in range(m):
         items = []
         for k in range(r.choice([0, 1, 1, 2, 2, 3, 3, 4, 4])):
-            items.append([r.choice(['section', 'section', 'equation', 'section', 'equation', 'figure', 'item', 'emptysection', 'starsection', 'section2']), k, 0])
+            items.append([r.choice(['section', 'section', 'equation', 'section', 'equation', 'figure', 'item', 'emptysection', 'starsection', 'section2', 'longtable']), k, 0])
         docs.append({'items': items, 'refs': [], 'next': len(items), 'fancy': r.random() < 0.4})
     if R('common').random() < 0.3:
         for d in docs:
@@ -873,6 +877,20 @@ class Sim(object):
                 if v['ref'] is None or num not in v['ref']:
                     self.violation('C20|save|number', {'label': lab, 'saved': v, 'expected': num})
                     return
+        # the saved target location names a file this document's rendering really has (a location without a file
+        # part would point into whatever document READS the label)
+        for lab, v in saved.items():
+            u = v.get('url')
+            if u is None:
+                continue
+            base = self.rec['swarm'].get('base_url', '')
+            if base and u.startswith(base):
+                u = u[len(base):].lstrip('/')
+            fpart = u.split('#')[0]
+            if not fpart or not (os.path.exists(os.path.join(self.root, self.jn(i), fpart)) or os.path.exists(os.path.join(self.root, fpart))):
+                self.violation('C20|save|target-location', {'label': lab, 'url': u, 'doc': i, 'renderer': R})
+                return
+            self.info['target_location_checked'] = 1
         if sorted(saved) != sorted(doc_labels(i, self.docs[i]) + ([COMMON] if self.docs[i].get('common') else [])):
             self.violation('C20|save|labelset', {'saved': sorted(saved), 'doc': self.docs[i]['items']})
             return
@@ -926,7 +944,14 @@ class Sim(object):
         for labattr, target, intree in res['refs'] or []:
             if target is None:
                 continue
-            lab = target.get('id')
+            # (the entry is looked up by the label the reference NAMES: an object with two labels carries the id of the
+            #  second one in both entries; after a bit flip the two entries may differ, and nothing is asserted then)
+            lab = _s(labattr) if _s(labattr) in restored else target.get('id')
+            try:
+                if self.files[self.pauxof(lab)]['fuzzy']:
+                    continue
+            except (ValueError, KeyError, TypeError):
+                pass
             if lab in restored and not self.xr:
                 self.info['cross_ref_resolved'] = 1
                 d = restored[lab]
@@ -1155,7 +1180,7 @@ def enumerate_cases(base_seed, tier):
                                                {'op': 'RUN', 'doc': 1, 'r': rr}, {'op': 'RUN', 'doc': 1, 'r': 1 - rr}]})
     out += pauxdirs_cases(base_seed, tier)
     # xr in each of its option forms x every kind of labelled object (incl. one object with two labels), fault-free
-    kinds = ['section2', 'section', 'equation', 'figure', 'item', 'emptysection', 'starsection']
+    kinds = ['section2', 'section', 'equation', 'figure', 'item', 'emptysection', 'starsection', 'longtable']
     for mode in ('plain', 'prefix', 'url', 'both'):
         for lsuf in (('', ':\u00e9') if tier == 'thorough' else ('',)):
             docs = [{'items': [['section', 0, 0]], 'refs': [[1, k] for k in range(len(kinds))], 'next': 1, 'fancy': False, 'lsuf': lsuf},
